@@ -93,6 +93,31 @@ def _deliver(pairs, dl):
         yield v
 
 
+class _Async:
+    """look-alike of multiprocessing.pool.AsyncResult for a task that has already run"""
+
+    def __init__(self, res, callback=None, error_callback=None, single=True):
+        self._ok, self._value = res
+        if self._ok and callback:
+            callback(self._value)
+        if not self._ok and error_callback:
+            error_callback(self._value)
+
+    def ready(self):
+        return True
+
+    def successful(self):
+        return self._ok
+
+    def wait(self, timeout=None):
+        return None
+
+    def get(self, timeout=None):
+        if not self._ok:
+            raise self._value
+        return self._value
+
+
 class SchedPool:
     """multiprocessing.Pool look-alike"""
 
@@ -134,6 +159,23 @@ class SchedPool:
 
     def apply(self, fn, args=(), kwds={}):
         return fn(*args, **kwds)
+
+    # asynchronous forms: the task runs at submission (one more point of the schedule space: a real pool may run
+    # it at any time before get / wait); the result object behaves like multiprocessing's - get() re-raises the
+    # task's exception, wait() does not, successful() tells
+    def apply_async(self, fn, args=(), kwds={}, callback=None, error_callback=None):
+        pairs, dl = CTL.run(lambda a: fn(*a[0], **a[1]), [(tuple(args), dict(kwds))], True)
+        return _Async(pairs[0][1], callback, error_callback, single=True)
+
+    def map_async(self, fn, it, chunksize=None, callback=None, error_callback=None):
+        pairs, dl = CTL.run(fn, list(it), True)
+        byidx = dict(pairs)
+        first_bad = next((byidx[i] for i in CTL.executed[-1] if not byidx[i][0]), None)
+        res = first_bad if first_bad is not None else (True, [byidx[i][1] for i in range(len(pairs))])
+        return _Async(res, callback, error_callback, single=False)
+
+    def starmap_async(self, fn, it, chunksize=None, callback=None, error_callback=None):
+        return self.map_async(lambda a: fn(*a), it, chunksize, callback, error_callback)
 
     def close(self):
         pass
